@@ -119,6 +119,14 @@ def conc_scenarios(tier, rng):
     scs.append({"init": one, "progs": [[Amend(1, 3), READ], [Match(4), READ]]})
     scs.append({"init": [I(1, 1, 1)], "progs": [[Amend(1, 4)], [Match(5)]]})
     scs.append({"init": [S(1, 1), S(2, 1)], "progs": [[Upq(2, PRICE, 5)], [Match(9)]]})
+    # orders that show nothing and cannot replenish (set aside by a match and re-queued when it ends) ahead of an
+    # ordinary order that fills the request completely
+    zi = [I(1, 0, 2), S(2, 2)]
+    scs.append({"init": zi, "progs": [[Match(1)], [Match(1)]]})
+    scs.append({"init": zi, "progs": [[Match(2)], [Cancel(1)]]})
+    scs.append({"init": zi, "progs": [[Match(1)], [Amend(1, 1)]]})
+    scs.append({"init": [R(1, 1, 2, 0, 0, True), S(2, 2)], "progs": [[Match(2)], [Match(1)]]})
+    scs.append({"init": [I(1, 0, 1), I(2, 0, 1), S(3, 1)], "progs": [[Match(1)], [Amend(2, 1), Amend(1, 1)]]})
     # orders of size 0 (amended to 0 or added so): they weigh nothing in the counters but are in the book
     zero = [S(1, 2), S(2, 0)]
     scs.append({"init": zero, "progs": [[Match(2)], [Cancel(2)]]})
